@@ -314,6 +314,14 @@ func (s *Slicer) walk(v ssa.Value, fr *frame, depth, lift int, seen map[ssa.Valu
 				if mu, ok := r.(*ssa.MapUpdate); ok && mu.Map == v {
 					rec(mu.Value)
 				}
+				// elements assigned by index (s := make([]T, n); s[i] = x)
+				if ia, ok := r.(*ssa.IndexAddr); ok && ia.X == v && ia.Referrers() != nil {
+					for _, r2 := range *ia.Referrers() {
+						if st, ok := r2.(*ssa.Store); ok && st.Addr == ssa.Value(ia) {
+							rec(st.Val)
+						}
+					}
+				}
 			}
 		}
 		t()
